@@ -152,7 +152,7 @@ theorem so3_calc_S2_toM (b : Vec ℝ 3) :
   generalize Trig.sin_3 (sqNorm b) = s3
   generalize Trig.cos_4 (sqNorm b) = c4
   fin_cases i <;> fin_cases j <;>
-    simp [mmul, vsum, SO3.hat, ident, mat3, K3]
+    simp [mmul, msmul, vsum, SO3.hat, ident, mat3, K3] <;> ring
 
 theorem galilei_gq_mkG (v p : Vec ℝ 3) (t : ℝ) (q : Vec ℝ 4) :
     Galilei.gq (Galilei.mkG v p t q) = q := by
